@@ -299,9 +299,10 @@ func (d *decompressor) readMember() error {
 	}
 	skipped := int(d.cr.offset() - mark)
 	need := d.blockSize - skipped
-	if need == 0 {
-		return io.EOF
-	} else if need < 0 {
+	if need <= 0 {
+		// The size field says the member ends with (or inside) its
+		// own header. A gzip member always has a body, so this is
+		// damage, not the end of the stream.
 		return ErrCorrupt
 	}
 
